@@ -1381,19 +1381,21 @@ def fam_flags(rng, n, tier, mode="exact"):
                 L += ["backward r -", "grad a", "grad r", "start a", "probekid r 0"]
             cases.append(Case(L, ("fl1", op, ha), [op, "flags"], mode))
     # matmul with the additive term, all 8 assignments
-    for fa in (0, 1):
+    # (every form of the additive term: a bias row, a single value, a one-row and a full matrix)
+    for cd in ([2], [1], [1, 2], [2, 2]):
+      for fa in (0, 1):
         for fb in (0, 1):
             for fc in (0, 1):
                 L = []
                 leaf(L, "a", [2, 3], "tracked" if fa else "plain")
                 leaf(L, "b", [3, 2], "tracked" if fb else "plain")
-                leaf(L, "c", [2], "tracked" if fc else "plain")
+                leaf(L, "c", cd, "tracked" if fc else "plain")
                 L += ["matmul r a N b N c", "probe r", "probekid r 2"]
                 if fa or fb or fc:
                     L += ["backward r -", "grad a", "grad b", "grad c"]
                 else:
                     L += ["own a", "own b", "own c"]
-                cases.append(Case(L, ("flmm", fa, fb, fc), ["matmul", "flags"], mode, nontrivial=(fa + fb + fc in (1, 2))))
+                cases.append(Case(L, ("flmm", fa, fb, fc, tuple(cd)), ["matmul", "flags"], mode, nontrivial=(fa + fb + fc in (1, 2))))
     # nothing flows through an untracked intermediate; flags survive passes; gradients are plain arrays
     for _ in range(n):
         p = Prog(rng, mode)
